@@ -69,6 +69,10 @@ func main() {
 			ids = []string{"C10"}
 			specs["C10"] = &PropSpec{ID: "C10", Rules: []func(*Ctx){ruleAncestorWalk, ruleParserAlias, ruleStaleIndex, ruleIndent, ruleTokenOrder, ruleLoaderCycle, ruleLoaderCache, rulePrefixGuard, ruleNilVsEmpty, ruleFormatterAssertionIndependent, ruleOptionalDeref}}
 		}
+		if os.Getenv("HL_RULESET") == "round14b" {
+			ids = []string{"C10"}
+			specs["C10"] = &PropSpec{ID: "C10", Rules: []func(*Ctx){ruleCacheFields, ruleMissingKeyOverwrite, rulePublish, ruleNilInnerMap, ruleSemantic, ruleExtenderKeepsSets, ruleStaleIndex}}
+		}
 		worst := 0
 		for _, id := range ids {
 			c := NewCtx(p, id, *tier)
